@@ -1015,7 +1015,9 @@ PROPS = {
                     'value; every node is unpinned at return.',
         functions=['BTrees._base.Tree/TreeSet/Bucket/Set public methods', '_OOBTree.so: _BTree_set, _BTree_get, BTree_grow, '
                    'BTree_split, BTree_split_root, BTree_deleteNextBucket, _bucket_set, _bucket_get, bucket_split, '
-                   'Bucket_grow, set_* / TreeSet_* in-place operators, BTree_clear, update'],
+                   'Bucket_grow, set_* / TreeSet_* in-place operators, BTree_clear, update',
+                   'engine E2 (LLVM IR of _IIBTree.c/_UUBTree.c/_LLBTree.c/_QQBTree.c): _bucket_get, _bucket_set, Bucket_grow, BTree_Realloc, '
+                   'BTree_Malloc, _BTree_get, Py_TYPE, PyType_HasFeature, longlong_convert, ulonglong_convert, longlong_handle_overflow'],
         assumptions=COMMON_ASSUME,
     ),
     'C03': dict(
